@@ -86,6 +86,9 @@ fn crash_params() -> SysParams {
 
 pub struct CrashSemantics;
 impl SubCheck for CrashSemantics {
+    fn fuzzable(&self) -> bool {
+        true
+    }
     type Case = SysDesc;
     fn name(&self) -> &'static str {
         "crash_points_enumerated"
